@@ -69,11 +69,51 @@ static void run_unit(int n, char **lines) {
   }
 }
 
+/* numeric CFG line (the model reads the same numbers):
+ *   CFG <boot> <nshutters> <late_us> <mode 0=unit 1=sys> [sys only: <btn_type> <btn_flags> <motor_mode> <up_ms> <down_ms>
+ *        <startup_ms> <rsflags> <time1_ms> <time2_ms> <sentdefault>]
+ * board: shutter i = relays 2i (up, gpio 1+2i) and 2i+1 (down, gpio 2+2i), both on channel i;
+ *        sys with buttons: shutter i < 3 has inputs 2i (gpio 9+2i -> up relay) and 2i+1 (gpio 10+2i -> down relay) */
+static void build_cfg(const char *line, char *out, size_t cap, int *mode) {
+  long long a[16]; memset(a, 0, sizeof a); int na = 0;
+  const char *p = line + 3;
+  while (*p && *p != ':' && na < 16) { while (*p == ' ') p++; if (!*p || *p == ':') break; a[na++] = strtoll(p, (char **)&p, 0); }
+  unsigned boot = (unsigned)a[0]; int n = (int)a[1]; if (n < 0) n = 0; if (n > 4) n = 4;
+  *mode = (int)a[3];
+  size_t o = 0;
+  o += snprintf(out + o, cap - o, "CFG boot=%u", boot);
+  if (a[2] > 0) o += snprintf(out + o, cap - o, " lateness=%lld", a[2]);
+  if (n > 0) {
+    o += snprintf(out + o, cap - o, " relays=");
+    for (int i = 0; i < n; i++) o += snprintf(out + o, cap - o, "%s%d:%d,%d:%d", i ? "," : "", 1 + 2 * i, i, 2 + 2 * i, i);
+    o += snprintf(out + o, cap - o, " rs=");
+    for (int i = 0; i < n; i++) o += snprintf(out + o, cap - o, "%s%d:%d", i ? "," : "", 2 * i, 2 * i + 1);
+  }
+  if (*mode == 1) {
+    if (a[4] > 0) {
+      o += snprintf(out + o, cap - o, " inputs=");
+      for (int i = 0; i < n && i < 3; i++)
+        o += snprintf(out + o, cap - o, "%s%d:%lld:%lld:%d:255:0,%d:%lld:%lld:%d:255:0", i ? "," : "",
+                      9 + 2 * i, a[4], a[5], 1 + 2 * i, 10 + 2 * i, a[4], a[5], 2 + 2 * i);
+    }
+    if (n > 0) {
+      o += snprintf(out + o, cap - o, " motor=");
+      for (int i = 0; i < n; i++) o += snprintf(out + o, cap - o, "%s%lld:%lld:%lld:%lld", i ? "," : "", a[6], a[7], a[8], a[9]);
+      o += snprintf(out + o, cap - o, " rsflags=%lld time1=", a[10]);
+      for (int i = 0; i < n; i++) o += snprintf(out + o, cap - o, "%s%lld", i ? "," : "", a[11]);
+      o += snprintf(out + o, cap - o, " time2=");
+      for (int i = 0; i < n; i++) o += snprintf(out + o, cap - o, "%s%lld", i ? "," : "", a[12]);
+    }
+    o += snprintf(out + o, cap - o, " sentdefault=%lld", a[13]);
+  }
+}
+
 static void run_case(int n, char **lines) {
   if (n <= 0 || strncmp(lines[0], "CFG", 3)) { vout("NO-CFG"); return; }
-  ds_apply_cfg(lines[0]);
-  const char *m = kvs(lines[0], "mode");
-  if (m && !strncmp(m, "unit", 4)) { run_unit(n, lines); return; }
+  char cfg[1024]; int mode = 0;
+  build_cfg(lines[0], cfg, sizeof cfg, &mode);
+  ds_apply_cfg(cfg);
+  if (mode == 0) { run_unit(n, lines); return; }
   ds_boot(1);
   for (int i = 1; i < n; i++) if (!ds_event(lines[i])) vout("UNKNOWN-EVENT");
   ds_finish();
